@@ -4,4 +4,4 @@
 using namespace simd;
 using intervals_t = ikos::interval_domain<z_number, varname_t>;
 using D = array_adaptive_domain<intervals_t>;
-SIM_REGISTER_DOMAIN(aa_intervals, D, "aa_intervals", CAP_ARRAY | CAP_CORE)
+SIM_REGISTER_DOMAIN(aa_intervals, D, "aa_intervals", CAP_ARRAY | CAP_CORE | CAP_BACKWARD)
